@@ -50,8 +50,11 @@ impl<T: Value> ExpertEdge for Edge<T> {
     fn on_change(&self) {
         let mut handler = self.on_change.borrow_mut();
         if let Some(h) = &mut *handler {
-            let v = self.child.node.value_as_ref();
-            h(v.as_ref().unwrap());
+            /* The child may not have a value yet: we also get here when the edge is linked,
+            which can be before the child has run even once (or after it was invalidated). */
+            if let Some(v) = self.child.node.value_as_ref() {
+                h(&v);
+            }
         }
     }
     fn packed(&self) -> NodeRef {
